@@ -105,6 +105,64 @@ Theorem C17_default_abscissae : forall cl m,
   (forall l, steps_of R Rplus Rminus Rmult Rdiv Rleb IZR cl (StepsList l) = l).
 Proof. exact default_abscissae. Qed.
 
+(* ---- audit round: further behaviour of the anchored code *)
+
+(* steps given as an int count is the same as passing the list of default abscissae; the default is the
+   count 10; counts 0 and 1 give no abscissa / the lower default limit only *)
+Theorem C17_count_is_list : forall sw coords n,
+  design_conditions R Rplus Rminus Rmult Rdiv Rleb IZR sw coords (StepsNum n) =
+    design_conditions R Rplus Rminus Rmult Rdiv Rleb IZR sw coords
+      (StepsList (steps_of R Rplus Rminus Rmult Rdiv Rleb IZR (closed_of R sw coords) (StepsNum n))) /\
+  design_conditions R Rplus Rminus Rmult Rdiv Rleb IZR sw coords StepsDefault =
+    design_conditions R Rplus Rminus Rmult Rdiv Rleb IZR sw coords (StepsNum 10) /\
+  steps_of R Rplus Rminus Rmult Rdiv Rleb IZR (closed_of R sw coords) (StepsNum 0) = [] /\
+  steps_of R Rplus Rminus Rmult Rdiv Rleb IZR (closed_of R sw coords) (StepsNum 1) =
+    [default_lower R Rplus Rminus Rmult Rdiv Rleb IZR (closed_of R sw coords)].
+Proof.
+  exact (fun sw coords n => conj (count_is_list sw coords n) (conj (default_is_ten sw coords)
+          (small_counts (closed_of R sw coords)))).
+Qed.
+
+(* each abscissa is treated on its own: the result for a concatenated list is the concatenation of the
+   results (any order, duplicates, the empty list) *)
+Theorem C17_pointwise : forall cl l1 l2,
+  design_conditions_closed R Rplus Rminus Rmult Rdiv Rleb IZR cl (StepsList (l1 ++ l2)) =
+    design_conditions_closed R Rplus Rminus Rmult Rdiv Rleb IZR cl (StepsList l1) ++
+    design_conditions_closed R Rplus Rminus Rmult Rdiv Rleb IZR cl (StepsList l2) /\
+  design_conditions_closed R Rplus Rminus Rmult Rdiv Rleb IZR cl (StepsList []) = [].
+Proof. exact (fun cl l1 l2 => conj (dc_list_app cl l1 l2) (dc_list_nil cl)). Qed.
+
+(* abscissae outside the contour's extent never cross it (so they are omitted); abscissae strictly
+   inside the extent always cross it (so they are never omitted) -- no general-position hypothesis *)
+Theorem C17_outside_inside : forall cl x,
+  (x < lmin R Rleb IZR (map fst cl) \/ lmax R Rleb IZR (map fst cl) < x -> ~ exists y, crossing cl x y) /\
+  (lmin R Rleb IZR (map fst cl) < x < lmax R Rleb IZR (map fst cl) -> exists y, crossing cl x y).
+Proof. exact (fun cl x => conj (outside_extent_no_crossing cl x) (strictly_inside_crossing cl x)). Qed.
+
+(* consequently none of the default / counted abscissae is omitted *)
+Theorem C17_defaults_all_present : forall cl n,
+  lmin R Rleb IZR (map snd cl) < lmax R Rleb IZR (map snd cl) \/ lmax R Rleb IZR (map snd cl) <> 0 ->
+  lmin R Rleb IZR (map fst cl) < lmax R Rleb IZR (map fst cl) ->
+  map fst (design_conditions_closed R Rplus Rminus Rmult Rdiv Rleb IZR cl (StepsNum n)) =
+  steps_of R Rplus Rminus Rmult Rdiv Rleb IZR cl (StepsNum n).
+Proof. exact defaults_all_present. Qed.
+
+(* a polygon without vertical edges: the design condition tops EVERY point of the polygon at its abscissa *)
+Theorem C17_top_of_polygon : forall cl xs r q,
+  (forall s, In s (segments cl) -> nonvertical s) -> dc_rel cl xs r -> In q r ->
+  forall y, on_polyline cl (fst q, y) -> y <= snd q.
+Proof. exact top_of_polygon. Qed.
+
+(* duplicated consecutive vertices (zero-length segments, an explicitly closed contour) change nothing,
+   in either curve; the routine is symmetric in its two curves *)
+Theorem C17_duplicate_vertices : forall a p b c,
+  intersection R Rplus Rminus Rmult Rdiv Rleb IZR (a ++ p :: p :: b) c = intersection R Rplus Rminus Rmult Rdiv Rleb IZR (a ++ p :: b) c /\
+  intersection R Rplus Rminus Rmult Rdiv Rleb IZR c (a ++ p :: p :: b) = intersection R Rplus Rminus Rmult Rdiv Rleb IZR c (a ++ p :: b).
+Proof. exact (fun a p b c => conj (duplicate_vertex_left a p b c) (duplicate_vertex_right c a p b)). Qed.
+Theorem C17_intersection_symmetric : forall c1 c2 p,
+  In p (intersection R Rplus Rminus Rmult Rdiv Rleb IZR c1 c2) <-> In p (intersection R Rplus Rminus Rmult Rdiv Rleb IZR c2 c1).
+Proof. exact intersection_sym. Qed.
+
 (* the executable instance run against the implementation is the same generic function at Q
    (exact rational arithmetic, every result reduced to lowest terms) *)
 Theorem C17_executable_instance :
@@ -119,9 +177,12 @@ Example C17_nonvacuous :
   (let cl := closed_of R false [(0, 0); (2, 1); (1, 3)] in
    (lmin R Rleb IZR (map snd cl) < lmax R Rleb IZR (map snd cl) \/ lmax R Rleb IZR (map snd cl) <> 0) /\ crossing cl 1 (1 / 2)) /\
   map (fun q => (Qred (fst q), Qred (snd q))) (Qdesign_conditions false [(0, 0); (2, 1); (1, 3)]%Q (StepsList [1; 5]%Q)) = [(1, 3 # 1)]%Q /\
-  length (Qintersection [(0, 0); (2, 2); (4, 0)]%Q [(2, -1 # 1); (2, 5)]%Q) = 2%nat.
+  length (Qintersection [(0, 0); (2, 2); (4, 0)]%Q [(2, -1 # 1); (2, 5)]%Q) = 2%nat /\
+  (* a duplicated vertex and an explicitly repeated first vertex give the same design condition *)
+  map (fun q => (Qred (fst q), Qred (snd q))) (Qdesign_conditions false [(0, 0); (2, 1); (2, 1); (1, 3); (0, 0)]%Q (StepsList [1; 5]%Q)) = [(1, 3 # 1)]%Q /\
+  Qdesign_conditions false [(0, 0); (2, 1); (1, 3)]%Q (StepsNum 0) = [].
 Proof.
-  split; [|split; vm_compute; reflexivity].
+  split; [|repeat split; vm_compute; reflexivity].
   cbv zeta. split.
   - left. cbn [closed_of map proj app snd lmin lmax minl maxl fold_left].
     unfold fmin, fmax.
@@ -145,3 +206,10 @@ Print Assumptions C17_closed_polygon.
 Print Assumptions C17_swap_axis.
 Print Assumptions C17_default_abscissae.
 Print Assumptions C17_executable_instance.
+Print Assumptions C17_count_is_list.
+Print Assumptions C17_pointwise.
+Print Assumptions C17_outside_inside.
+Print Assumptions C17_defaults_all_present.
+Print Assumptions C17_top_of_polygon.
+Print Assumptions C17_duplicate_vertices.
+Print Assumptions C17_intersection_symmetric.
